@@ -662,117 +662,7 @@ func WgWait(w *load.World, c *core.Collector) {
 					continue
 				}
 				n++
-				// events after which the goroutines have finished: Wait called by the function itself, or
-				// a receive from a channel that a goroutine of this function closes (or sends on) after Wait
-				barrier := map[*ssa.BasicBlock]ssa.Instruction{}
-				var banned []ssax.Edge
-				for _, r := range *wg.Referrers() {
-					if call, ok := r.(*ssa.Call); ok && call.Call.StaticCallee() != nil && call.Call.StaticCallee().Name() == "Wait" {
-						barrier[call.Block()] = call
-					}
-				}
-				doneChans := map[ssa.Value]bool{}
-				for _, gb := range f.Blocks {
-					for _, gi := range gb.Instrs {
-						g, ok := gi.(*ssa.Go)
-						if !ok {
-							continue
-						}
-						mc, ok := g.Call.Value.(*ssa.MakeClosure)
-						if !ok {
-							continue
-						}
-						lit, _ := mc.Fn.(*ssa.Function)
-						if lit == nil {
-							continue
-						}
-						var waitCall ssa.Instruction
-						for i, bnd := range mc.Bindings {
-							if bnd == ssa.Value(wg) && i < len(lit.FreeVars) {
-								for _, r := range *lit.FreeVars[i].Referrers() {
-									if call, ok := r.(*ssa.Call); ok && call.Call.StaticCallee() != nil && call.Call.StaticCallee().Name() == "Wait" {
-										waitCall = call
-									}
-								}
-							}
-						}
-						if waitCall == nil {
-							continue
-						}
-						for _, lb := range lit.Blocks {
-							for _, li := range lb.Instrs {
-								var ch ssa.Value
-								switch x := li.(type) {
-								case *ssa.Call:
-									if bi, ok := x.Call.Value.(*ssa.Builtin); ok && bi.Name() == "close" {
-										ch = x.Call.Args[0]
-									}
-								case *ssa.Send:
-									ch = x.Chan
-								}
-								if ch == nil || !ssax.Precedes(waitCall, li) {
-									continue
-								}
-								// which channel of the parent is it
-								if ld, ok := ch.(*ssa.UnOp); ok {
-									ch = ld.X
-								}
-								if fv, ok := ch.(*ssa.FreeVar); ok {
-									for i, q := range lit.FreeVars {
-										if q == fv && i < len(mc.Bindings) {
-											doneChans[mc.Bindings[i]] = true
-										}
-									}
-								}
-							}
-						}
-					}
-				}
-				isDone := func(v ssa.Value) bool {
-					if doneChans[v] {
-						return true
-					}
-					if ld, ok := v.(*ssa.UnOp); ok && doneChans[ld.X] {
-						return true
-					}
-					return false
-				}
-				for _, rb := range f.Blocks {
-					for _, ri := range rb.Instrs {
-						switch x := ri.(type) {
-						case *ssa.UnOp:
-							if x.Op == token.ARROW && isDone(x.X) {
-								barrier[rb] = x
-							}
-						case *ssa.Select:
-							// only the arm of that channel
-							for k, st := range x.States {
-								if !isDone(st.Chan) {
-									continue
-								}
-								for _, r := range *x.Referrers() {
-									ex, ok := r.(*ssa.Extract)
-									if !ok || ex.Index != 0 {
-										continue
-									}
-									for _, rr := range *ex.Referrers() {
-										bo, ok := rr.(*ssa.BinOp)
-										if !ok || bo.Op != token.EQL {
-											continue
-										}
-										if kc, isC := ssax.ConstInt(bo.Y); isC && int(kc) == k {
-											for _, r3 := range *bo.Referrers() {
-												if ifi, ok := r3.(*ssa.If); ok {
-													banned = append(banned, ssax.Edge{From: ifi.Block(), Succ: 0})
-												}
-											}
-										}
-									}
-								}
-							}
-						}
-					}
-				}
+				barrier, banned := wgBarriers(w, f, wg, 0)
 				isBanned := func(b *ssa.BasicBlock, i int) bool {
 					for _, e := range banned {
 						if e.From == b && e.Succ == i {
@@ -952,4 +842,762 @@ func TemplateMap(w *load.World, c *core.Collector) {
 		}
 		c.Add("TEMPLATEMAP", key, core.Violation, hs[0].where, strings.Join(dedupe(parts), "; "), props...)
 	}
+}
+
+// =========================================================================
+// Small lints added after the fourth blind round. Each reports a shape that is
+// wrong wherever it occurs; the pinned tree has no instance of any of them, the
+// corpus has at least one blind positive example for each.
+
+type lintHit struct{ where, what string }
+
+func emitLint(c *core.Collector, rule, keyPrefix string, seenPkg map[string]bool, per map[string][]lintHit, extra func(pkg string) []string) {
+	var pkgs []string
+	for p := range seenPkg {
+		pkgs = append(pkgs, p)
+	}
+	sort.Strings(pkgs)
+	for _, p := range pkgs {
+		props := lintProps(p)
+		if extra != nil {
+			props = append(append([]string{}, props...), extra(p)...)
+		}
+		if len(props) == 0 {
+			continue
+		}
+		key := keyPrefix + ":" + load.Short(p)
+		hs := per[p]
+		if len(hs) == 0 {
+			c.Add(rule, key, core.OK, "", "", props...)
+			continue
+		}
+		sort.Slice(hs, func(i, j int) bool { return hs[i].where < hs[j].where })
+		var parts []string
+		for _, h := range hs {
+			parts = append(parts, h.where+": "+h.what)
+		}
+		c.Add(rule, key, core.Violation, hs[0].where, strings.Join(dedupe(parts), "; "), props...)
+	}
+}
+
+func staticName(call ssa.CallInstruction) string {
+	if g := call.Common().StaticCallee(); g != nil {
+		return g.String()
+	}
+	return ""
+}
+
+// SPRINTEQ: two values are compared by comparing their fmt.Sprint renderings. The rendering is
+// not injective ([]string{"a b"} and []string{"a","b"} print alike), so "unchanged" is concluded
+// for values that differ.
+func SprintEq(w *load.World, c *core.Collector) {
+	per := map[string][]lintHit{}
+	seen := map[string]bool{}
+	isSprint := func(v ssa.Value) bool {
+		call, ok := v.(*ssa.Call)
+		if !ok {
+			return false
+		}
+		n := staticName(call)
+		return n == "fmt.Sprint" || n == "fmt.Sprintf" || n == "fmt.Sprintln"
+	}
+	for _, f := range w.Fns {
+		if !load.InMod(f) || f.Synthetic != "" {
+			continue
+		}
+		pkg := load.PkgPath(f)
+		seen[pkg] = true
+		for _, b := range f.Blocks {
+			for _, in := range b.Instrs {
+				if bo, ok := in.(*ssa.BinOp); ok && (bo.Op == token.EQL || bo.Op == token.NEQ) && isSprint(bo.X) && isSprint(bo.Y) {
+					per[pkg] = append(per[pkg], lintHit{w.At(in), "two values are taken for equal when fmt.Sprint renders them alike: the rendering does not tell [\"a b\"] from [\"a\" \"b\"], a change between such values is missed"})
+				}
+			}
+		}
+	}
+	emitLint(c, "SPRINTEQ", "rendered-equality", seen, per, nil)
+}
+
+// POOLESCAPE: a function gives an object back to a sync.Pool (also by defer) and returns memory of
+// that object: the next Get hands the same memory to someone else while the caller still uses it.
+func PoolEscape(w *load.World, c *core.Collector) {
+	per := map[string][]lintHit{}
+	seen := map[string]bool{}
+	for _, f := range w.Fns {
+		if !load.InMod(f) || f.Synthetic != "" {
+			continue
+		}
+		pkg := load.PkgPath(f)
+		seen[pkg] = true
+		var put []ssa.Value
+		for _, b := range f.Blocks {
+			for _, in := range b.Instrs {
+				ci, ok := in.(ssa.CallInstruction)
+				if !ok || staticName(ci) != "(*sync.Pool).Put" || len(ci.Common().Args) < 2 {
+					continue
+				}
+				v := ci.Common().Args[1]
+				if mi, ok := v.(*ssa.MakeInterface); ok {
+					v = mi.X
+				}
+				put = append(put, v)
+			}
+		}
+		if len(put) == 0 {
+			continue
+		}
+		derives := func(v ssa.Value) bool {
+			for i := 0; i < 8 && v != nil; i++ {
+				for _, p := range put {
+					if v == p {
+						return true
+					}
+				}
+				switch x := v.(type) {
+				case *ssa.Slice:
+					v = x.X
+				case *ssa.IndexAddr:
+					v = x.X
+				case *ssa.FieldAddr:
+					v = x.X
+				case *ssa.ChangeType:
+					v = x.X
+				case *ssa.Convert:
+					v = x.X
+				case *ssa.UnOp:
+					v = x.X
+				case *ssa.Phi:
+					for _, e := range x.Edges {
+						for _, p := range put {
+							if e == p {
+								return true
+							}
+						}
+					}
+					return false
+				default:
+					return false
+				}
+			}
+			return false
+		}
+		for _, b := range f.Blocks {
+			if r, ok := b.Instrs[len(b.Instrs)-1].(*ssa.Return); ok {
+				for i := range r.Results {
+					rv := ssax.ReturnOperand(r, i)
+					if _, isPtrOrSlice := rv.Type().Underlying().(*types.Basic); isPtrOrSlice {
+						continue
+					}
+					if derives(rv) {
+						per[pkg] = append(per[pkg], lintHit{w.At(r), "the function returns memory of an object it has given back to a sync.Pool: the next caller of Get writes into what this caller still holds"})
+					}
+				}
+			}
+		}
+	}
+	emitLint(c, "POOLESCAPE", "returned-after-put", seen, per, nil)
+}
+
+// REGEXANCHOR: a validation pattern that is anchored at the start but not at the end accepts any
+// tail: "^[a-z0-9]{3,24}" matches "abc/../../other".
+func RegexAnchor(w *load.World, c *core.Collector) {
+	per := map[string][]lintHit{}
+	seen := map[string]bool{}
+	for _, f := range w.Fns {
+		if !load.InMod(f) {
+			continue
+		}
+		pkg := load.PkgPath(f)
+		seen[pkg] = true
+		for _, b := range f.Blocks {
+			for _, in := range b.Instrs {
+				ci, ok := in.(ssa.CallInstruction)
+				if !ok {
+					continue
+				}
+				n := staticName(ci)
+				if n != "regexp.MustCompile" && n != "regexp.Compile" && n != "regexp.MatchString" && n != "regexp.Match" {
+					continue
+				}
+				pat, ok := ssax.ConstString(ci.Common().Args[0])
+				if !ok {
+					continue
+				}
+				if strings.HasPrefix(pat, "^") && !strings.HasSuffix(pat, "$") && !strings.HasSuffix(pat, "\\z") {
+					per[pkg] = append(per[pkg], lintHit{w.At(in), fmt.Sprintf("the pattern %q is anchored at the start only: whatever follows a matching head is accepted", pat)})
+				}
+			}
+		}
+	}
+	emitLint(c, "REGEXANCHOR", "open-ended-pattern", seen, per, func(p string) []string {
+		if strings.Contains(p, "/httpapi") {
+			return []string{"C16"}
+		}
+		return nil
+	})
+}
+
+// HANDLERSHARED: an HTTP handler literal (w http.ResponseWriter, r *http.Request) assigns to a
+// variable of the function that built it. That function runs once, the literal once per request,
+// concurrently: the requests share the variable (one tenant's id is overwritten by another's).
+func HandlerShared(w *load.World, c *core.Collector) {
+	per := map[string][]lintHit{}
+	seen := map[string]bool{}
+	isHandler := func(f *ssa.Function) bool {
+		ps := f.Signature.Params()
+		return f.Parent() != nil && ps.Len() == 2 && strings.HasSuffix(ps.At(0).Type().String(), "net/http.ResponseWriter") && strings.HasSuffix(ps.At(1).Type().String(), "net/http.Request")
+	}
+	for _, f := range w.Fns {
+		if !load.InMod(f) || !isHandler(f) {
+			continue
+		}
+		pkg := load.PkgPath(f)
+		seen[pkg] = true
+		for _, fv := range f.FreeVars {
+			if len(storeBlocksInto(fv, 0)) > 0 {
+				per[pkg] = append(per[pkg], lintHit{w.Position(f.Pos()), fmt.Sprintf("the request handler assigns to %s, a variable of the function that created the handler: all requests share it, and two that overlap see each other's value", fv.Name())})
+			}
+		}
+	}
+	for _, f := range w.Fns {
+		if load.InMod(f) && strings.Contains(load.PkgPath(f), "/httpapi") {
+			seen[load.PkgPath(f)] = true
+		}
+	}
+	emitLint(c, "HANDLERSHARED", "captured-write", seen, per, func(p string) []string {
+		if strings.Contains(p, "/httpapi") {
+			return []string{"C16"}
+		}
+		return nil
+	})
+}
+
+// RECVSTORE: a method with a value receiver assigns to a field of the receiver. The caller's
+// value is not changed: a default "filled in" by a validator is gone when the validator returns,
+// and what is stored is the value that was never valid.
+func RecvStore(w *load.World, c *core.Collector) {
+	per := map[string][]lintHit{}
+	seen := map[string]bool{}
+	for _, f := range w.Fns {
+		if !load.InMod(f) || f.Synthetic != "" || f.Signature.Recv() == nil || len(f.Params) == 0 {
+			continue
+		}
+		pkg := load.PkgPath(f)
+		seen[pkg] = true
+		if _, isPtr := f.Signature.Recv().Type().Underlying().(*types.Pointer); isPtr {
+			continue
+		}
+		if _, isStruct := f.Signature.Recv().Type().Underlying().(*types.Struct); !isStruct {
+			continue
+		}
+		recv := f.Params[0]
+		// the receiver is spilled into a cell when its fields are assigned
+		for _, r := range *recv.Referrers() {
+			st, ok := r.(*ssa.Store)
+			if !ok || st.Val != ssa.Value(recv) {
+				continue
+			}
+			cell, ok := st.Addr.(*ssa.Alloc)
+			if !ok || escapesAlloc(cell) {
+				continue
+			}
+			// the whole value handed on (returned, passed, stored) keeps the assignment alive
+			handedOn := false
+			for _, cr := range *cell.Referrers() {
+				if ld, ok := cr.(*ssa.UnOp); ok && ld.Op == token.MUL {
+					for _, lr := range *ld.Referrers() {
+						switch lr.(type) {
+						case *ssa.Return, *ssa.Store, *ssa.Call, *ssa.MakeInterface, *ssa.Send, *ssa.MapUpdate:
+							handedOn = true
+						}
+					}
+				}
+			}
+			if handedOn {
+				continue
+			}
+			for _, cr := range *cell.Referrers() {
+				fa, ok := cr.(*ssa.FieldAddr)
+				if !ok {
+					continue
+				}
+				for _, fr := range *fa.Referrers() {
+					if s2, ok := fr.(*ssa.Store); ok && s2.Addr == ssa.Value(fa) {
+						stt := ssax.StructOf(cell.Type())
+						per[pkg] = append(per[pkg], lintHit{w.At(s2), fmt.Sprintf("%s assigns to %s.%s, but its receiver is a copy: the caller's value keeps what it had (a default filled in here is lost, the unvalidated value is what gets stored)", load.FnKey(f), recv.Name(), stt.Field(fa.Field).Name())})
+					}
+				}
+			}
+		}
+	}
+	emitLint(c, "RECVSTORE", "value-receiver-assignment", seen, per, nil)
+}
+
+// TRYLOCKSKIP: "if !mu.TryLock() { return nil }": when somebody else holds the lock the function
+// reports success without having done (or waited for) the work the lock protects.
+func TryLockSkip(w *load.World, c *core.Collector) {
+	per := map[string][]lintHit{}
+	seen := map[string]bool{}
+	for _, f := range w.Fns {
+		if !load.InMod(f) || f.Synthetic != "" {
+			continue
+		}
+		pkg := load.PkgPath(f)
+		seen[pkg] = true
+		for _, b := range f.Blocks {
+			ifi, ok := b.Instrs[len(b.Instrs)-1].(*ssa.If)
+			if !ok {
+				continue
+			}
+			cond, neg := ifi.Cond, false
+			if u, ok := cond.(*ssa.UnOp); ok && u.Op == token.NOT {
+				cond, neg = u.X, true
+			}
+			call, ok := cond.(*ssa.Call)
+			if !ok {
+				continue
+			}
+			n := staticName(call)
+			if n != "(*sync.Mutex).TryLock" && n != "(*sync.RWMutex).TryLock" && n != "(*sync.RWMutex).TryRLock" {
+				continue
+			}
+			failed := b.Succs[1]
+			if neg {
+				failed = b.Succs[0]
+			}
+			// the failed side does nothing but return success
+			onlyReturn := true
+			var ret *ssa.Return
+			for _, in := range failed.Instrs {
+				switch x := in.(type) {
+				case *ssa.Return:
+					ret = x
+				case *ssa.RunDefers, *ssa.DebugRef, *ssa.Store, *ssa.UnOp:
+				default:
+					onlyReturn = false
+				}
+			}
+			if !onlyReturn || ret == nil {
+				continue
+			}
+			success := true
+			for i := range ret.Results {
+				rv := ssax.ReturnOperand(ret, i)
+				if isErrorType(rv.Type()) && !ssax.IsNilConst(rv) {
+					success = false
+				}
+				if cb, isC := ssax.ConstBool(rv); isC && !cb {
+					success = false // reports "not acquired": a try-like function itself
+				}
+			}
+			if success && len(ret.Results) > 0 {
+				per[pkg] = append(per[pkg], lintHit{w.At(call), "when the lock is held by someone else the function returns success at once: the caller goes on as if the protected work were done, while it may still be in progress"})
+			}
+		}
+	}
+	emitLint(c, "TRYLOCKSKIP", "success-without-lock", seen, per, nil)
+}
+
+// LOSSYCMP: two 64-bit integers are converted to float64 and then compared. Above 2^53 distinct
+// integers convert to the same float: they compare equal, an order built on it has ties that are
+// not ties.
+func LossyCmp(w *load.World, c *core.Collector) {
+	per := map[string][]lintHit{}
+	seen := map[string]bool{}
+	isWideIntToFloat := func(v ssa.Value, depth int) bool {
+		var rec func(v ssa.Value, depth int) bool
+		rec = func(v ssa.Value, depth int) bool {
+			if depth > 3 {
+				return false
+			}
+			switch x := v.(type) {
+			case *ssa.Convert:
+				from, ok1 := x.X.Type().Underlying().(*types.Basic)
+				to, ok2 := x.Type().Underlying().(*types.Basic)
+				if ok1 && ok2 && to.Info()&types.IsFloat != 0 && from.Info()&types.IsInteger != 0 {
+					switch from.Kind() {
+					case types.Int64, types.Uint64, types.Int, types.Uint, types.Uintptr:
+						return true
+					}
+				}
+			case *ssa.Phi:
+				for _, e := range x.Edges {
+					if rec(e, depth+1) {
+						return true
+					}
+				}
+			case *ssa.Call:
+				// a helper that widens its argument
+				if g := x.Call.StaticCallee(); g != nil && ssax.InModule(g) {
+					for _, gb := range g.Blocks {
+						if r, ok := gb.Instrs[len(gb.Instrs)-1].(*ssa.Return); ok && len(r.Results) > 0 && rec(r.Results[0], depth+1) {
+							return true
+						}
+					}
+				}
+			case *ssa.Extract:
+				if call, ok := x.Tuple.(*ssa.Call); ok {
+					if g := call.Call.StaticCallee(); g != nil && ssax.InModule(g) {
+						for _, gb := range g.Blocks {
+							if r, ok := gb.Instrs[len(gb.Instrs)-1].(*ssa.Return); ok && x.Index < len(r.Results) && rec(r.Results[x.Index], depth+1) {
+								return true
+							}
+						}
+					}
+				}
+			}
+			return false
+		}
+		return rec(v, depth)
+	}
+	for _, f := range w.Fns {
+		if !load.InMod(f) || f.Synthetic != "" {
+			continue
+		}
+		pkg := load.PkgPath(f)
+		seen[pkg] = true
+		for _, b := range f.Blocks {
+			for _, in := range b.Instrs {
+				var x, y ssa.Value
+				switch v := in.(type) {
+				case *ssa.BinOp:
+					switch v.Op {
+					case token.LSS, token.GTR, token.LEQ, token.GEQ, token.EQL, token.NEQ:
+						x, y = v.X, v.Y
+					}
+				case *ssa.Call:
+					if strings.HasPrefix(staticName(v), "cmp.Compare") && len(v.Call.Args) == 2 {
+						x, y = v.Call.Args[0], v.Call.Args[1]
+					}
+				}
+				if x == nil {
+					continue
+				}
+				if isWideIntToFloat(x, 0) && isWideIntToFloat(y, 0) {
+					per[pkg] = append(per[pkg], lintHit{w.At(in), "two 64-bit integers are compared after both were converted to float64: above 2^53 different integers become the same float and compare equal"})
+				}
+			}
+		}
+	}
+	emitLint(c, "LOSSYCMP", "integers-through-float", seen, per, func(p string) []string {
+		if strings.HasSuffix(p, "/utils") {
+			return []string{"C06"}
+		}
+		return nil
+	})
+}
+
+// TXSHADOW: inside the callback of a storage write transaction, a field of the long-lived object
+// that owns the store (the Shard, the ClusterNode) is assigned — directly, or by a method of that
+// object called from the callback. The storage engine rolls the buckets back when the callback or
+// the commit fails; nothing rolls the field back. In-memory state that mirrors stored state (a
+// cached point count, an id allocator kept between requests) then disagrees with the store after
+// the first failed batch.
+func TxShadow(w *load.World, c *core.Collector) {
+	per := map[string][]lintHit{}
+	seen := map[string]bool{}
+	n := 0
+	for _, cb := range txCallbacks(w) {
+		if !cb.Write || cb.Fn.Parent() == nil {
+			continue
+		}
+		pkg := load.PkgPath(cb.Fn)
+		seen[pkg] = true
+		n++
+		// the owner: the receiver of the method that starts the transaction, captured by the callback
+		root := cb.Fn
+		for root.Parent() != nil {
+			root = root.Parent()
+		}
+		if root.Signature.Recv() == nil || len(root.Params) == 0 {
+			continue
+		}
+		recvT := root.Signature.Recv().Type()
+		isOwner := func(v ssa.Value) bool {
+			for i := 0; i < 6 && v != nil; i++ {
+				switch x := v.(type) {
+				case *ssa.FreeVar:
+					return types.Identical(x.Type(), recvT) || types.Identical(x.Type(), types.NewPointer(recvT))
+				case *ssa.Parameter:
+					return x == root.Params[0]
+				case *ssa.UnOp:
+					v = x.X
+				case *ssa.FieldAddr:
+					// a nested struct held by value is still the owner's memory; a pointer field leads elsewhere
+					if _, isPtr := x.X.Type().Underlying().(*types.Pointer).Elem().Underlying().(*types.Struct); !isPtr {
+						return false
+					}
+					v = x.X
+				default:
+					return false
+				}
+			}
+			return false
+		}
+		var scan func(fn *ssa.Function, ownerIs func(ssa.Value) bool, depth int, via string)
+		scan = func(fn *ssa.Function, ownerIs func(ssa.Value) bool, depth int, via string) {
+			for _, b := range fn.Blocks {
+				for _, in := range b.Instrs {
+					switch x := in.(type) {
+					case *ssa.Store:
+						if fa, ok := x.Addr.(*ssa.FieldAddr); ok && ownerIs(fa.X) {
+							st := ssax.StructOf(fa.X.Type())
+							// synchronisation primitives and atomics are not mirrored state
+							ft := st.Field(fa.Field).Type().String()
+							if strings.HasPrefix(ft, "sync.") || strings.HasPrefix(ft, "sync/atomic.") {
+								continue
+							}
+							per[pkg] = append(per[pkg], lintHit{w.At(x), fmt.Sprintf("%s.%s is assigned inside a storage write transaction%s: if the transaction is rolled back the field keeps the value of the batch that did not happen", ssax.TypeName(fa.X.Type()), st.Field(fa.Field).Name(), via)})
+						}
+					case *ssa.Call:
+						g := x.Call.StaticCallee()
+						if g != nil && strings.HasPrefix(g.String(), "(*sync/atomic.") && len(x.Call.Args) > 0 {
+							switch g.Name() {
+							case "Store", "Add", "Swap", "CompareAndSwap", "And", "Or":
+								if fa, ok := x.Call.Args[0].(*ssa.FieldAddr); ok && ownerIs(fa.X) {
+									st := ssax.StructOf(fa.X.Type())
+									per[pkg] = append(per[pkg], lintHit{w.At(x), fmt.Sprintf("%s.%s is updated (atomic %s) inside a storage write transaction%s: if the transaction is rolled back the field keeps the value of the batch that did not happen", ssax.TypeName(fa.X.Type()), st.Field(fa.Field).Name(), g.Name(), via)})
+								}
+							}
+							continue
+						}
+						if g == nil || depth > 0 || !ssax.InModule(g) || g.Signature.Recv() == nil || len(x.Call.Args) == 0 || !ownerIs(x.Call.Args[0]) || len(g.Params) == 0 {
+							continue
+						}
+						gp := g.Params[0]
+						scan(g, func(v ssa.Value) bool {
+							for i := 0; i < 4 && v != nil; i++ {
+								if v == ssa.Value(gp) {
+									return true
+								}
+								if u, ok := v.(*ssa.UnOp); ok {
+									v = u.X
+									continue
+								}
+								return false
+							}
+							return false
+						}, depth+1, " (by "+load.FnKey(g)+", called from the callback at "+w.At(x)+")")
+					}
+				}
+			}
+			if depth == 0 {
+				for _, lit := range fn.AnonFuncs {
+					scan(lit, ownerIs, depth, via)
+				}
+			}
+		}
+		scan(cb.Fn, isOwner, 0, "")
+	}
+	c.Count("write_callbacks_scanned_for_owner_state", n)
+	emitLint(c, "TXSHADOW", "owner-state-in-transaction", seen, per, func(p string) []string {
+		switch {
+		case strings.HasSuffix(p, "/shard"):
+			return []string{"C07", "C15"}
+		case strings.HasSuffix(p, "/cluster"):
+			return []string{"C15"}
+		}
+		return nil
+	})
+}
+
+// wgBarriers: the events in f after which the goroutines reporting to the WaitGroup wg (a local
+// variable or a parameter of f) have finished: Wait called by f itself; a receive from a channel
+// that a goroutine of f closes (or sends on) after Wait; a call of a helper that is given the
+// WaitGroup and does not return before such an event.
+func wgBarriers(w *load.World, f *ssa.Function, wg ssa.Value, depth int) (map[*ssa.BasicBlock]ssa.Instruction, []ssax.Edge) {
+	barrier := map[*ssa.BasicBlock]ssa.Instruction{}
+	var banned []ssax.Edge
+	if wg.Referrers() == nil {
+		return barrier, banned
+	}
+	for _, r := range *wg.Referrers() {
+		call, ok := r.(*ssa.Call)
+		if !ok || call.Call.StaticCallee() == nil {
+			continue
+		}
+		if call.Call.StaticCallee().Name() == "Wait" && strings.Contains(call.Call.StaticCallee().String(), "sync.WaitGroup") {
+			barrier[call.Block()] = call
+			continue
+		}
+		// handed to a helper that waits
+		g := call.Call.StaticCallee()
+		if depth < 2 && ssax.InModule(g) && len(g.Blocks) > 0 {
+			for i, a := range call.Call.Args {
+				if a != wg || i >= len(g.Params) {
+					continue
+				}
+				gb, gbanned := wgBarriers(w, g, g.Params[i], depth+1)
+				if len(gb) == 0 && len(gbanned) == 0 {
+					continue
+				}
+				// every return of the helper is behind one of its barriers
+				isBanned := func(b *ssa.BasicBlock, k int) bool {
+					for _, e := range gbanned {
+						if e.From == b && e.Succ == k {
+							return true
+						}
+					}
+					return false
+				}
+				all := true
+				for _, rb := range g.Blocks {
+					if _, isRet := rb.Instrs[len(rb.Instrs)-1].(*ssa.Return); !isRet {
+						continue
+					}
+					seen := map[*ssa.BasicBlock]bool{}
+					var dfs func(x *ssa.BasicBlock) bool
+					dfs = func(x *ssa.BasicBlock) bool {
+						if _, isB := gb[x]; isB {
+							return false
+						}
+						if x == rb {
+							return true
+						}
+						if seen[x] {
+							return false
+						}
+						seen[x] = true
+						for k, sc := range x.Succs {
+							if isBanned(x, k) {
+								continue
+							}
+							if dfs(sc) {
+								return true
+							}
+						}
+						return false
+					}
+					if dfs(g.Blocks[0]) {
+						all = false
+					}
+				}
+				if all {
+					barrier[call.Block()] = call
+				}
+			}
+		}
+	}
+	doneChans := map[ssa.Value]bool{}
+	for _, gb := range f.Blocks {
+		for _, gi := range gb.Instrs {
+			g, ok := gi.(*ssa.Go)
+			if !ok {
+				continue
+			}
+			mc, ok := g.Call.Value.(*ssa.MakeClosure)
+			if !ok {
+				continue
+			}
+			lit, _ := mc.Fn.(*ssa.Function)
+			if lit == nil {
+				continue
+			}
+			var waitCall ssa.Instruction
+			for i, bnd := range mc.Bindings {
+				same := bnd == wg
+				if al, isAl := bnd.(*ssa.Alloc); isAl && !same {
+					same = ssax.SingleStore(al) == wg
+				}
+				if same && i < len(lit.FreeVars) {
+					for _, r := range *lit.FreeVars[i].Referrers() {
+						switch x := r.(type) {
+						case *ssa.Call:
+							if x.Call.StaticCallee() != nil && x.Call.StaticCallee().Name() == "Wait" {
+								waitCall = x
+							}
+						case *ssa.UnOp:
+							// a captured parameter: the pointer is read from the cell first
+							for _, rr := range *x.Referrers() {
+								if c2, ok := rr.(*ssa.Call); ok && c2.Call.StaticCallee() != nil && c2.Call.StaticCallee().Name() == "Wait" {
+									waitCall = c2
+								}
+							}
+						}
+					}
+				}
+			}
+			if waitCall == nil {
+				continue
+			}
+			for _, lb := range lit.Blocks {
+				for _, li := range lb.Instrs {
+					var ch ssa.Value
+					switch x := li.(type) {
+					case *ssa.Call:
+						if bi, ok := x.Call.Value.(*ssa.Builtin); ok && bi.Name() == "close" {
+							ch = x.Call.Args[0]
+						}
+					case *ssa.Send:
+						ch = x.Chan
+					}
+					if ch == nil || !ssax.Precedes(waitCall, li) {
+						continue
+					}
+					if ld, ok := ch.(*ssa.UnOp); ok {
+						ch = ld.X
+					}
+					if fv, ok := ch.(*ssa.FreeVar); ok {
+						for i, q := range lit.FreeVars {
+							if q == fv && i < len(mc.Bindings) {
+								doneChans[mc.Bindings[i]] = true
+								// a parameter captured through a cell
+								if al, isAl := mc.Bindings[i].(*ssa.Alloc); isAl {
+									if sv := ssax.SingleStore(al); sv != nil {
+										doneChans[sv] = true
+									}
+								}
+							}
+						}
+					}
+				}
+			}
+		}
+	}
+	isDone := func(v ssa.Value) bool {
+		if doneChans[v] {
+			return true
+		}
+		if ld, ok := v.(*ssa.UnOp); ok && doneChans[ld.X] {
+			return true
+		}
+		return false
+	}
+	for _, rb := range f.Blocks {
+		for _, ri := range rb.Instrs {
+			switch x := ri.(type) {
+			case *ssa.UnOp:
+				if x.Op == token.ARROW && isDone(x.X) {
+					barrier[rb] = x
+				}
+			case *ssa.Select:
+				// only the arm of that channel
+				for k, st := range x.States {
+					if !isDone(st.Chan) {
+						continue
+					}
+					for _, r := range *x.Referrers() {
+						ex, ok := r.(*ssa.Extract)
+						if !ok || ex.Index != 0 {
+							continue
+						}
+						for _, rr := range *ex.Referrers() {
+							bo, ok := rr.(*ssa.BinOp)
+							if !ok || bo.Op != token.EQL {
+								continue
+							}
+							if kc, isC := ssax.ConstInt(bo.Y); isC && int(kc) == k {
+								for _, r3 := range *bo.Referrers() {
+									if ifi, ok := r3.(*ssa.If); ok {
+										banned = append(banned, ssax.Edge{From: ifi.Block(), Succ: 0})
+									}
+								}
+							}
+						}
+					}
+				}
+			}
+		}
+	}
+	return barrier, banned
 }
